@@ -21,27 +21,27 @@ NA = {
 TECH = "deterministic simulation with fault injection (seeded op-and-fault histories on live objects, {oracle}, ddmin shrinking, replay files)"
 CHECKS = {
  "C08": ("fault_enumeration",
-   "For every sampled world and target call getB/H/J/M (all entry points, all argument combinations), every reachable crash site is exercised: each named fault point in getBH_level2 x MemoryError/KeyboardInterrupt, each invocation of each scripted CustomSource callback x raise/None/wrong shape/list/scalar/in-place mutation, field-not-implemented, FP errors raised, warnings as errors, pandas missing. Oracle: whole world (generic walk over vars of every object, incl. style) and every caller array bitwise unchanged after each call, returned or raised, and the disarmed call returns the baseline bitwise. Enumeration of crash points per sampled call; sampling over worlds and calls.",
+   "For every sampled world and target call getB/H/J/M (all entry points, all argument combinations), every reachable crash site is exercised: each named fault point in getBH_level2 x MemoryError/KeyboardInterrupt, each invocation of each scripted CustomSource callback x raise/None/wrong shape/list/scalar/in-place mutation, field-not-implemented, FP errors raised, warnings as errors, pandas missing, and (sys.settrace) a KeyboardInterrupt at every executed line of the field_wrap_BH functions outside finally/except bodies. The iteration order of the tiled-object set is decided by the simulator. Oracle: whole world (generic walk over vars of every object, incl. style values, whether the lazily created style object exists, and pending style kwargs) and every caller array/list/container bitwise unchanged after each call, returned or raised, and the disarmed call returns the baseline bitwise. Enumeration of crash points per sampled call; sampling over worlds and calls.",
    "Trusted: the snapshot encoder (generic over vars(obj)), the six add-only fault points standing for allocation failures/interrupts, single-shot fault assumption (recovery runs fault free), world reuse between variants justified by the bitwise post==pre check (10% of runs rebuild twins by replay instead).",
    "bitwise world-snapshot oracle + per-call crash-site enumeration", "DESIGN.md §3 C08"),
  "C09": ("exploration",
-   "Seeded histories of move / rotate (7 parametrisations) / position= / orientation= / reset_path on independent objects, refined step by step against an executable reference model of the documented path semantics (own quaternion algebra); rotate_from_* compared with rotate() of the equivalent rotation on a twin; all invalid-argument variants of each step run on a twin, which must be bitwise unchanged when the call is rejected.",
+   "Seeded histories of move / rotate (7 parametrisations) / position= / orientation= / reset_path on independent objects, refined step by step against an executable reference model of the documented path semantics (own quaternion algebra); rotate_from_* compared with rotate() of the equivalent rotation on a twin; all invalid-argument variants of each step (bad shapes/types, empty inputs, overflowing values) run on a twin, which must be bitwise unchanged when the call is rejected and well-formed when it is accepted; inputs are also given as live views of internal state (obj.position), as caller-owned ndarrays that are overwritten after the call, and with NumPy integer start values.",
    "Trusted: the reference model (written from the documentation, validated on the pinned tree: 0 discrepancies), SciPy as converter between rotation parametrisations, tolerance 1e-9. Sampling, bounded histories.",
    "reference-model refinement after every step + enumerated rejected variants", "DESIGN.md §3 C09"),
  "C10": ("exploration",
-   "Seeded histories on shared collection trees (depth <= 3): after every op on any collection each descendant's pose in that collection's frame must equal the pose before, edge-padded/end-sliced like the collection's own path; everything outside the operated subtree bitwise unchanged; getB of the subtree at its own sensors invariant; invalid-argument variants on a twin tree must leave the whole tree bitwise unchanged.",
+   "Seeded histories on shared collection trees (depth <= 3): after every op on any collection each descendant's pose in that collection's frame must equal the pose before, edge-padded/end-sliced like the collection's own path; everything outside the operated subtree bitwise unchanged; getB of the subtree at its own sensors invariant; invalid-argument variants on a twin tree must leave the whole tree bitwise unchanged; inputs include live views of other members' paths (also wrapped/reversed) and augmented assignment. One genuine defect is recorded as a known finding (C10-c: coll.position += d, live-view getter) and printed as KNOWN-FINDING.",
    "Trusted: own quaternion algebra for relative poses, padding maps from the C09 model, generator maintains the property's precondition (members share the collection's path length). Tolerances 1e-9 (poses), rtol 1e-7 (field, guarded against near-surface observers).",
    "relative-pose invariant after every step + enumerated rejected variants on twin trees", "DESIGN.md §3 C10"),
  "C11": ("fault_enumeration",
-   "Seeded histories of tree-editing operations; at every step every recorded poison (position x kind) variant of that step's operation is executed on a twin world, and the forest invariants I1-I4 are checked after every call, returned or raised. Sampling over histories, enumeration over rejection points within each sampled step.",
+   "Seeded histories of tree-editing operations (add, remove, parent=, the four typed setters incl. augmented assignment, +, copy, Collection(...), arguments also given as the live lists behind the public views); at every step every recorded poison (position x kind) variant of that step's operation is executed on a twin world, and the forest invariants I1-I4 are checked after every call, returned or raised. Sampling over histories, enumeration over rejection points within each sampled step.",
    "Trusted: the invariant checker (reads _parent/_children and the public views), the twin-world mirror (cross-checked against replay-rebuilt twins in 10% of runs). Bounded pools/histories; sampling, not proof.",
    "forest-invariant oracle after every call + enumerated poison variants on twin worlds", "DESIGN.md §3 C11"),
  "C18": ("exploration",
-   "Seeded copy-then-mutate histories over attribute-rich worlds (all classes, parents, lazy/initialised styles, keyword overrides): equality, parentlessness, consistency and disjointness of the copied subtree right after the copy; after every later mutation of one side the other side's snapshot must be bitwise unchanged; failing copies (bad kwargs at each position, un-deep-copyable attachment at each subtree position) must leave the original world unchanged.",
+   "Seeded copy-then-mutate histories over attribute-rich worlds (all classes, parents, lazy/initialised styles, keyword overrides): equality, parentlessness, consistency and disjointness of the copied subtree right after the copy; after every later mutation of one side the other side's snapshot must be bitwise unchanged; failing copies (bad kwargs at each position, un-deep-copyable attachment at each subtree position, parent= keyword followed by a rejected input) must leave the original world unchanged; the copy's label must be the documented iteration.",
    "Trusted: the generic snapshot encoder (style states canonicalised), mutation catalogue. Sampling over histories.",
    "twin-side independence oracle (bitwise snapshots) + enumerated failing copies", "DESIGN.md §3 C18"),
  "C20": ("exploration",
-   "Seeded histories of style writes through every notation and layer (object, family default, base default, show kwargs), resets and copies, refined leaf by leaf against a four-layer reference model; invalid leaf/value variants of each step must be rejected without being stored; non-addressed objects and the defaults must be bitwise unchanged.",
+   "Seeded histories of style writes through every notation and layer (object, family default, base default, show kwargs), resets and copies, refined leaf by leaf against a four-layer reference model; 13 notations incl. mixed ones, dictionary assignment to sub-styles, string shortcuts and documented colour input forms; invalid leaf/value variants of each step (incl. names of methods) must be rejected without being stored; non-addressed objects, the defaults, the non-style display settings and every dictionary/list the caller passed in must be unchanged; reset() and display.style.reset() restore the frozen documented defaults.",
    "Trusted: the style reference model and its frozen copy of the documented defaults, the leaf-kind value table; interpreter runs without -O. Sampling over histories.",
    "four-layer reference-model refinement after every step + enumerated invalid variants", "DESIGN.md §3 C20"),
 }
